@@ -15,11 +15,11 @@ Definition api (ask : string -> list val -> val) : list api_entry :=
   let dec := AddrInst.b32_dec in
   [
   ("algo_encode", fun a => match a with [VB pub] => rb (AddrText.algo_encode s5 enc pub) | _ => bad_call end);
-  ("algo_decode", fun a => match a with [VB s] => rb (AddrText.algo_decode s5 vp dec s) | _ => bad_call end);
+  ("algo_decode", fun a => match a with [VB s] => rb (AddrText.algo_decode s5 vp enc dec s) | _ => bad_call end);
   ("xlm_encode", fun a => match a with [VN t; VB pub] => rb (AddrText.xlm_encode crc enc t pub) | _ => bad_call end);
   ("xlm_decode", fun a => match a with [VN t; VB s] => rb (AddrText.xlm_decode vp crc dec t s) | _ => bad_call end);
   ("fil_encode", fun a => match a with [VB pub] => rb (AddrText.fil_encode b2b enc pub) | _ => bad_call end);
-  ("fil_decode", fun a => match a with [VB s] => rb (AddrText.fil_decode b2b dec s) | _ => bad_call end);
+  ("fil_decode", fun a => match a with [VB s] => rb (AddrText.fil_decode b2b enc dec s) | _ => bad_call end);
   ("nano_encode", fun a => match a with [VB pub] => rb (AddrText.nano_encode b2b enc pub) | _ => bad_call end);
   ("nano_decode", fun a => match a with [VB s] => rb (AddrText.nano_decode b2b vp dec s) | _ => bad_call end);
   ("nim_encode", fun a => match a with [VB pub] => rb (AddrText.nim_encode b2b enc pub) | _ => bad_call end);
